@@ -75,7 +75,7 @@ def specClass (s : List Char) : String :=
   | some a => if Spec.sane a then "strict-sane" else
       (if Spec.materialOk a .white && Spec.materialOk a .black && Spec.noEdgePawns a then "strict-material" else "strict")
   | none => match Spec.fenLoose s with
-    | some _ => "loose"
+    | some _ => if Spec.epRankOk s then "loose" else "malformed"   -- en-passant square on the wrong rank for the side
     | none => "malformed"
 
 def fmtInfos (infos : List (Search.Info Move)) : List String :=
